@@ -10,6 +10,8 @@ use super::{
     remote_map::{MappedAddrs, to_transport_addr},
     transports::Addr,
 };
+#[cfg(not(wasm_browser))]
+pub use super::transports::verif::VerifRelayTransport;
 
 /// How [`MultipathMappedAddr::from`] classifies a socket address.
 #[derive(Debug, Clone, Copy, PartialEq, Eq, Hash)]
